@@ -377,6 +377,11 @@ def run(ctx):
     from .. import cmdops
     if cmdops.run(ctx, "C08", fs, quick):             # every position-neutral sf_command x last operation x next operation, pointers apart
         found = True
+    from .. import rdwrexist, setcmds
+    if rdwrexist.run(ctx, "C08", quick):             # EXISTING files of every format that opens SFM_RDWR (block-packed ones too): idle, append
+        found = True
+    if setcmds.run(ctx, "C08", fs, quick):            # setter commands issued after the handle has grown the file
+        found = True
     ctx.notes["rdwr_refused_at_open"] = skipped
     ctx.notes["known_finding_class_hits"] = kf_hits
     # ---- C: hole histories (write / extending truncate beyond the end of the data), vlib/c08holes.py ----
